@@ -108,6 +108,14 @@ Theorem lock_order_of_current_source : lock_order_ok gen_funcs gen_roots = true.
 Proof. vm_compute. reflexivity. Qed.
 Print Assumptions lock_order_of_current_source.
 
+(* every read-modify-write of a guarded variable (configure's option update, the temp-file registry
+   append, the copy-on-write replacement of Binutils.rep ...) is a single critical section: this is
+   what makes option_ops_are_atomic / atomic_ops_linearizable a model of the source *)
+Theorem read_modify_write_single_section :
+  rmw_ok gen_funcs (map fst gen_rmw_exempt) gen_roots = true /\ rmw_seen gen_funcs gen_roots = true.
+Proof. vm_compute. split; reflexivity. Qed.
+Print Assumptions read_modify_write_single_section.
+
 Theorem current_source_mutual_exclusion : forall progs s i j m,
   (forall i, source_thread gen_funcs gen_roots (progs i)) -> reach progs s ->
   In m (th_h (ths s i)) -> In m (th_h (ths s j)) -> i = j.
